@@ -397,7 +397,12 @@ class World(object):
                 self.dropped.append(msg)
                 self.rec.emit('RPC_DROP', mid=msg.mid, brief=msg.brief())
                 if msg.call:
-                    raise RuntimeError('dropped sync call')
+                    # what the caller sees when the message (or its reply)
+                    # is lost: the RPC times out
+                    from mistral import exceptions as m_exc
+                    raise m_exc.MistralException(
+                        'This rpc call "%s" took longer than configured '
+                        'seconds.' % msg.method)
                 return None
         cur = self.coop.current()
         u = self.spawn_delivery(msg)
